@@ -504,3 +504,54 @@ contract(F + "CombinedCategoricalDissimilarity.__init__#supplied",
                   cl(COMB_INV, "C04", name="class-invariant-combined-kernel")],
          notes="components of the two built-in classes supplied by the caller, whatever delta_empty they were built with",
          serves={"C04"})
+
+contract(F + "CombinedCategoricalDissimilarity.d",
+         params={"self": COMBD(), "unit1": UnitVT(), "unit2": UnitVT()}, returns=RealT(), modifies=[], macros=POS_MACROS,
+         requires=["unit1.e - unit1.s > 1e-6", "unit2.e - unit2.s > 1e-6",
+                   "self.positional_dissim.delta_empty == self.delta_empty and self.categorical_dissim.delta_empty == self.delta_empty"],
+         ensures=[cl("result == self.alpha * (POS(unit1.s, unit1.e, unit1.e - unit1.s, unit2.s, unit2.e, unit2.e - unit2.s) * self.delta_empty) + "
+                     "self.beta * ((0 if (unit1.haslab == unit2.haslab and unit1.lab == unit2.lab) else 1) * self.delta_empty)", "C04",
+                     name="alpha-times-positional-plus-beta-times-categorical-with-the-one-delta_empty")],
+         serves={"C04", "C12"})
+
+# ---- precomputed categorical (matrix indexed by the categories in alphabetical order)
+PRED = lambda: ObjT("PrecomputedCategoricalDissimilarity", delta_empty=RealT(), d_mat=DMAT, categories=OptObjT(ObjT("SetStr")),   # noqa: E731
+                    _matrix=NdArray("f32", 2))
+PRE_IDX = "toreal(int(x[3])) == x[3] and 0 <= x[3] and x[3] < shape(self._matrix)[0] and toreal(int(y[3])) == y[3] and 0 <= y[3] and y[3] < shape(self._matrix)[0]"
+PRE_INV = ROWS + "implies(" + PRE_IDX + ", self.d_mat(x, y) == self._matrix[int(x[3])][int(y[3])] * self.delta_empty))"
+contract(F + "PrecomputedCategoricalDissimilarity.compile_d_mat", params={"self": PRED()}, returns=DMAT, modifies=[],
+         requires=["shape(self._matrix)[1] == shape(self._matrix)[0]", "shape(self._matrix)[0] <= 32767"],
+         ensures=[cl(ROWS + "implies(" + PRE_IDX + ", result(x, y) == self._matrix[int(x[3])][int(y[3])] * self.delta_empty))", "C04",
+                     name="the-kernel-reads-the-matrix-entry-of-the-two-category-indexes-times-this-object's-delta_empty")],
+         serves={"C04"})
+for _v, _sup in (("AbstractDissimilarity.__init__#precomputed", None), ("CategoricalDissimilarity.__init__#precomputed", "AbstractDissimilarity.__init__#precomputed")):
+    contract(F + _v, params={"self": PRED(), "categories": OptObjT(ObjT("SetStr")), "delta_empty": RealT()}, modifies=["self"],
+             requires=["not isnone(categories)", "shape(self._matrix)[1] == shape(self._matrix)[0]", "shape(self._matrix)[0] <= 32767"],
+             raises={"ValueError": {}},
+             calls={"super().__init__": F + _sup} if _sup else {},
+             binds={"self.categories": "categories"},
+             ensures=[cl("self.delta_empty == delta_empty and not isnone(self.categories)", "C04", name="delta_empty-and-categories-stored"),
+                      cl("raw(self._matrix) == old(raw(self._matrix)) and shape(self._matrix) == old(shape(self._matrix))", "C04", name="matrix-kept"),
+                      cl(PRE_INV, "C04", name="class-invariant-kernel-uses-the-object's-matrix-and-delta_empty")],
+             serves={"C04"})
+contract(F + "PrecomputedCategoricalDissimilarity.__init__",
+         params={"self": PRED(), "categories": ObjT("SetStr"), "matrix": NdArray("f32", 2), "delta_empty": RealT()}, modifies=["self"],
+         requires=["size(categories) <= 32767"],
+         raises={"ValueError": {}, "AssertionError": {"iff": "not (shape(matrix)[0] == size(categories) and shape(matrix)[1] == size(categories))"}},
+         calls={"super().__init__": F + "CategoricalDissimilarity.__init__#precomputed"},
+         binds={"self.categories": "categories"},
+         ensures=[cl("self.delta_empty == delta_empty and not isnone(self.categories)", "C04", name="parameters-stored"),
+                  cl("raw(self._matrix) == raw(matrix) and shape(self._matrix)[0] == size(categories) and shape(self._matrix)[1] == size(categories)", "C04",
+                     name="the-matrix-is-the-given-one-one-row-and-column-per-category"),
+                  cl(PRE_INV, "C04", name="class-invariant-kernel-uses-the-object's-matrix-and-delta_empty")],
+         serves={"C04"})
+
+contract(F + "PrecomputedCategoricalDissimilarity.d",
+         params={"self": PRED(), "unit1": UnitVT(), "unit2": UnitVT()}, returns=RealT(), modifies=[],
+         requires=["not isnone(self.categories)", "shape(self._matrix)[0] == size(self.categories) and shape(self._matrix)[1] == size(self.categories)",
+                   "unit1.haslab and unit2.haslab"],
+         raises={"ValueError": {"iff": "not members(self.categories)[unit1.lab] or not members(self.categories)[unit2.lab]"}},
+         ensures=[cl("result == self._matrix[idxof(self.categories)[unit1.lab]][idxof(self.categories)[unit2.lab]] * self.delta_empty", "C04",
+                     name="matrix-entry-of-the-two-category-names-times-delta_empty")],
+         hooks=[],
+         serves={"C04"})
